@@ -341,6 +341,9 @@ func (s *scen) faultsSince(fs *simos.FS) bool {
 const offsetsPath = "/data/offsets.yaml"
 
 type yamlState struct {
+	// Cursor: a string whose length goes up and down from save to save (as a journald cursor does), so that a
+	// snapshot can be shorter than what an earlier, failed save left in the temporary file
+	Cursor  string           `json:"cursor"`
 	Offsets map[string]int64 `json:"offsets"`
 }
 
@@ -395,6 +398,7 @@ func (s *scen) run(sim *simrt.Sim) string {
 						if cfg.YAML {
 							ymu.Lock()
 							ystate.Offsets[k.stream] = val
+							ystate.Cursor = strings.Repeat("c", int(uint64(val)*7%23))
 							snap := map[key]int64{}
 							for kk, vv := range s.done {
 								snap[kk] = vv
